@@ -3,7 +3,7 @@
 // names. They implement the FloPoCo format exactly (2 exception bits, sign, wE exponent bits with
 // bias 2^(wE-1)-1, wF fraction bits, no subnormals) with arbitrary precision, so that what is
 // tested is the Go glue in dyntype_flopoco.go under the assumption of a faithful tool.
-package main
+package fpfmt
 
 import (
 	"fmt"
@@ -13,7 +13,7 @@ import (
 	"strings"
 )
 
-func toolMain(name string) {
+func ToolMain(name string) {
 	if len(os.Args) != 4 {
 		fmt.Fprintln(os.Stderr, "usage:", name, "wE wF value")
 		os.Exit(1)
